@@ -419,6 +419,33 @@ pub struct Exec {
     pub g: *mut FnGraph<Node>,
     pub runs: Vec<Run>,
     pub dead: bool,
+    /// polls happen inside a tokio runtime (cooperative budget in force)
+    pub tokio: bool,
+    /// a stream poll returned Pending or the stream ended: the consumer task yields here
+    pub stream_yield: bool,
+}
+
+thread_local! {
+    static RT: tokio::runtime::Runtime = tokio::runtime::Builder::new_current_thread().build().expect("runtime");
+}
+
+/// Runs `f` as ONE poll of a tokio task (fresh cooperative budget), then lets the task yield once so that
+/// wake-ups tokio deferred during the poll are delivered before we look at the waker flag.
+pub fn in_task_poll<T>(f: impl FnOnce() -> T) -> T {
+    RT.with(|rt| {
+        let mut f = Some(f);
+        let mut out: Option<T> = None;
+        rt.block_on(std::future::poll_fn(|cx| {
+            if let Some(f) = f.take() {
+                out = Some(f());
+                cx.waker().wake_by_ref();
+                Poll::Pending
+            } else {
+                Poll::Ready(())
+            }
+        }));
+        out.expect("polled")
+    })
 }
 
 impl Exec {
@@ -443,6 +470,56 @@ impl Exec {
                 })
                 .collect(),
             dead: false,
+            tokio: false,
+            stream_yield: false,
+        }
+    }
+
+    pub fn is_stream_step(&self, st: &Step) -> bool {
+        let run = match st {
+            Step::Poll { run } | Step::Drop { run, .. } | Step::DropStream { run } => *run,
+            _ => return false,
+        };
+        run >= 1 && run <= self.runs.len() && self.runs[run - 1].cfg.is_stream()
+    }
+
+    /// Applies the steps; in tokio mode consecutive stream steps up to a Pending poll form one task poll.
+    pub fn run_steps(&mut self, steps: &[Step]) {
+        let mut i = 0;
+        while i < steps.len() {
+            if self.tokio && self.is_stream_step(&steps[i]) {
+                let me: *mut Exec = self;
+                let idx: *mut usize = &mut i;
+                in_task_poll(|| {
+                    // SAFETY: single thread; `self` and `i` outlive this synchronous closure
+                    let (me, i) = unsafe { (&mut *me, &mut *idx) };
+                    me.stream_yield = false;
+                    while *i < steps.len() && me.is_stream_step(&steps[*i]) && !me.stream_yield {
+                        let ok = me.step(&steps[*i]);
+                        *i += 1;
+                        if !ok {
+                            *i = steps.len();
+                        }
+                    }
+                });
+                // wake-ups that tokio deferred to the end of the task poll (budget exhausted) have been
+                // delivered now: the waker flag of the Pending poll that ended the task poll is read here
+                if self.stream_yield {
+                    let flags: Vec<bool> = self.runs.iter().map(|r| r.flag.get()).collect();
+                    let mut world = self.w.borrow_mut();
+                    if let Some(last) = world.log.iter_mut().rev().find(|v| v["ev"] == "spoll") {
+                        if last["res"] == "pending" {
+                            let r = last["run"].as_u64().unwrap_or(1) as usize;
+                            last["woken"] = json!(flags[r - 1]);
+                        }
+                    }
+                }
+            } else {
+                if !self.step(&steps[i]) {
+                    break;
+                }
+                i += 1;
+            }
         }
     }
 
@@ -691,8 +768,15 @@ impl Exec {
         let waker = Waker::from(flag.clone());
         let mut cx = Context::from_waker(&waker);
         self.w.borrow_mut().cur_run = run;
+        let tokio = self.tokio;
         let res = match &mut self.runs[r].body {
-            Body::Call(f) => catch_unwind(AssertUnwindSafe(|| f.as_mut().poll(&mut cx))),
+            Body::Call(f) => {
+                if tokio {
+                    in_task_poll(|| catch_unwind(AssertUnwindSafe(|| f.as_mut().poll(&mut cx))))
+                } else {
+                    catch_unwind(AssertUnwindSafe(|| f.as_mut().poll(&mut cx)))
+                }
+            }
             _ => return,
         };
         match res {
@@ -731,12 +815,14 @@ impl Exec {
         match res {
             Ok(Poll::Pending) => {
                 self.runs[r].may_poll = false;
+                self.stream_yield = true;
                 self.ev(json!({"ev":"spoll","run":run,"res":"pending","f":0,"interrupted":false,
                     "woken":flag.get(),"spurious":spurious,"held":held}));
             }
             Ok(Poll::Ready(None)) => {
                 self.runs[r].may_poll = false;
                 self.runs[r].stream_ended = true;
+                self.stream_yield = true;
                 self.runs[r].status = Status::Returned;
                 self.ev(json!({"ev":"spoll","run":run,"res":"none","f":0,"interrupted":false,
                     "woken":flag.get(),"spurious":spurious,"held":held}));
